@@ -448,10 +448,53 @@ pub fn run(ctx: &Ctx) -> Report {
         st = st.merge(st6);
     }
 
+    // (7) prefix rule over the whole alphabet of header names: a header named <prefix><c><rest> for every character c
+    //     a header name may contain (and for <rest> empty), unsigned (refused) and signed (accepted), under two declared
+    //     prefixes, with the requirements built three ways
+    {
+        let chars: Vec<char> = "!#$%&'*+-.^_`|~0123456789abcdefghijklmnopqrstuvwxyz".chars().collect();
+        let n7 = (chars.len() * 2 * 2 * 2 * 3) as u64;
+        let base7 = base2 + n_seq + 40_000_000;
+        let st7 = par_sweep(n7, |i, st| {
+            let mut x = i as usize;
+            let how = [ReqBuild::Slice, ReqBuild::VecNew, ReqBuild::VecAdd][x % 3];
+            x /= 3;
+            let signed = x % 2 == 1;
+            x /= 2;
+            let with_rest = x % 2 == 1;
+            x /= 2;
+            let prefix = ["x-p-", "X-Amz-"][x % 2];
+            x /= 2;
+            let c = chars[x];
+            let name = format!("{}{}{}", prefix.to_ascii_lowercase(), c, if with_rest { "tag" } else { "" });
+            let mut plan = e2e::base_plan(if i % 5 == 0 { Carrier::Query } else { Carrier::Header });
+            plan.headers.push((name.clone(), b"v".to_vec()));
+            if signed {
+                plan.signed.push(name.clone());
+            }
+            let mut cfg = Cfg::basic(e2e::base_instant());
+            cfg.reqs = ReqSpec { always: vec![], if_in_request: vec![], prefixes: vec![prefix.to_string()], how: Some(how) };
+            let case = Case { wire: WireReq::from_wire(&build(&plan).wire), cfg, prov: ProvSpec::standard() };
+            let before = st.violations.len();
+            let j = e2e::judge_into(base7 + i, &case, st);
+            if st.violations.len() > before {
+                if let Some(v) = st.violations.last_mut() {
+                    v.what = format!("prefix-rule(header {:?} under prefix {:?}, {}):{}", name, prefix, if signed { "signed" } else { "unsigned" }, v.what);
+                }
+            }
+            if !crate::env::ambient_b() && !j.unspecified && j.reference.accepted() != signed && !matches!(j.sut, crate::sut::SutResult::Unbuildable(_)) {
+                crate::core::machinery_error(&format!("C05 (7): reference verdict for {:?} signed={} is {:?} at {:?} (carrier {:?})\n{}", name, signed, j.reference.error, j.reference.stage, case.wire.uri, case.wire.render()));
+            }
+            st.state(&(prefix, signed, j.reference.accepted(), "prefix-alphabet"));
+            st.nontrivial(&(name, signed, how as u8, "prefix-alphabet"));
+        });
+        st = st.merge(st7);
+    }
+
     Report {
         stats: st,
         rule: format!(
-            "64 requirement sets (always ⊆ {{x-req-a, Content-Type}}, if-in-request ⊆ {{x-opt-c, ETag}}, prefixes ⊆ {{x-p-, X-Amz}}) x {} letter-case styles x {} ways of building the requirements (slice, VecSignedHeaderRequirements::new, add_*, add_* then remove_* of decoys) x every subset of 7 optional request headers (one of them named exactly like the declared prefix x-p-; values rotate through empty, blank and non-empty; for every second case each header is repeated as a query parameter of the same name and value) x every signed subset of the present headers and x-amz-date x {{host, :authority, neither}}; every request is correctly signed over exactly the list it declares, so only the requirement rules can refuse it. Oracle: reference verifier (Ok iff host/:authority signed, every always-header signed, every present conditional header signed, every present header matching a prefix — including x-amz-date and authorization-related ones — signed; otherwise SignatureDoesNotMatch/403 and an empty provider log). plus every sequence of up to {} add_*/remove_* operations over three names (two of them case variants of each other) on VecSignedHeaderRequirements, compared with a set model of what was declared; plus signed-header lists as multisets (a name repeated once / twice, every entry doubled, a name of a header not sent, as many repeats as there are unsigned sent headers) x 64 requirement sets x 15 header presence sets x every signed subset; plus 256 requirement sets whose declarations overlap (names declared always / conditionally required that also fall under a declared prefix, x-amz-date declared conditional, one name in two categories) x every presence subset of 5 headers x every signed subset x x-amz-date signed or not; plus a form POST with an empty and a dot path segment signed correctly under each of the 4 readings (folded or not, S3 path or normalised) x the server running each of the 4 option sets x 64 requirement sets x every signed subset of its 5 headers and x-amz-date x carrier (a signature good for another reading of the request never excuses an unsigned mandatory header). states = (requirement set, accepted)",
+            "64 requirement sets (always ⊆ {{x-req-a, Content-Type}}, if-in-request ⊆ {{x-opt-c, ETag}}, prefixes ⊆ {{x-p-, X-Amz}}) x {} letter-case styles x {} ways of building the requirements (slice, VecSignedHeaderRequirements::new, add_*, add_* then remove_* of decoys) x every subset of 7 optional request headers (one of them named exactly like the declared prefix x-p-; values rotate through empty, blank and non-empty; for every second case each header is repeated as a query parameter of the same name and value) x every signed subset of the present headers and x-amz-date x {{host, :authority, neither}}; every request is correctly signed over exactly the list it declares, so only the requirement rules can refuse it. Oracle: reference verifier (Ok iff host/:authority signed, every always-header signed, every present conditional header signed, every present header matching a prefix — including x-amz-date and authorization-related ones — signed; otherwise SignatureDoesNotMatch/403 and an empty provider log). plus every sequence of up to {} add_*/remove_* operations over three names (two of them case variants of each other) on VecSignedHeaderRequirements, compared with a set model of what was declared; plus signed-header lists as multisets (a name repeated once / twice, every entry doubled, a name of a header not sent, as many repeats as there are unsigned sent headers) x 64 requirement sets x 15 header presence sets x every signed subset; plus 256 requirement sets whose declarations overlap (names declared always / conditionally required that also fall under a declared prefix, x-amz-date declared conditional, one name in two categories) x every presence subset of 5 headers x every signed subset x x-amz-date signed or not; plus a form POST with an empty and a dot path segment signed correctly under each of the 4 readings (folded or not, S3 path or normalised) x the server running each of the 4 option sets x 64 requirement sets x every signed subset of its 5 headers and x-amz-date x carrier (a signature good for another reading of the request never excuses an unsigned mandatory header); plus a header named <prefix><c>[tag] for every character c a header name may contain (51), unsigned and signed, under two declared prefixes, requirements built three ways. states = (requirement set, accepted)",
             if thorough { 3 } else { 3 }, n_build, depth
         ),
         bounds: json!({"requirement_sets": 64, "shapes": n_shapes, "cases": total}),
